@@ -1,3 +1,97 @@
 (* C11 — property theorems only.  Proofs live in Proofs/VlanProofs.v. *)
-From Coq Require Import List String Bool Arith NArith.
+From Coq Require Import List String Bool Arith NArith Permutation.
 From Annet Require Import Base.Str Model.Vlan Spec.P_C11 Proofs.VlanProofs.
+Import ListNotations.
+Open Scope string_scope.
+
+(* expand(collapse(S)) == S: for every finite set, both settings of tiny_ranges, and every
+   chunk length >= 1, the ranges written by collapse_vlandb (cut into chunks) denote S. *)
+Theorem C11_expand_collapse :
+  forall (tiny : bool) (chunk_len : nat) (s : NS.t),
+    NS.Equal (set_of_ranges (List.concat (chunked (S chunk_len) (collapse tiny s)))) s.
+Proof. exact expand_collapse_chunked. Qed.
+Print Assumptions C11_expand_collapse.
+
+Theorem C11_expand_collapse_unchunked :
+  forall (tiny : bool) (s : NS.t), NS.Equal (set_of_ranges (collapse tiny s)) s.
+Proof. exact expand_collapse. Qed.
+Print Assumptions C11_expand_collapse_unchunked.
+
+(* Inside the domain the (repaired) rule logic always answers (no assertion fires). *)
+Theorem C11_total :
+  forall k old new, wf_C11 (k, old, new) = true -> exists cs, model_struct k old new = Some cs.
+Proof. exact total_struct. Qed.
+Print Assumptions C11_total.
+
+(* Executing the emitted commands — in the emitted order or in any other order the
+   ordering stage may give them — on S_old yields exactly S_new.  All five rule kinds, all
+   sets, all splittings of both range lists over any number of lines. *)
+Theorem C11_final :
+  forall k old new, wf_C11 (k, old, new) = true ->
+  forall cs, model_struct k old new = Some cs ->
+  forall cs', Permutation cs' cs ->
+    NS.Equal (simulate cs' (S_old (k, old, new))) (S_new (k, old, new)).
+Proof. intros k old new WF cs E cs' P. exact (final_struct k old new WF cs cs' E P). Qed.
+Print Assumptions C11_final.
+
+(* After every prefix of the commands (again in any order) every VLAN of S_old ∩ S_new is
+   still there. *)
+Theorem C11_no_transient_loss :
+  forall k old new, wf_C11 (k, old, new) = true ->
+  forall cs, model_struct k old new = Some cs ->
+  forall cs' l1 l2, Permutation cs' cs -> cs' = (l1 ++ l2)%list ->
+    NS.Subset (NS.inter (S_old (k, old, new)) (S_new (k, old, new))) (simulate l1 (S_old (k, old, new))).
+Proof. intros k old new WF cs E cs' l1 l2. exact (prefix_struct k old new WF cs cs' l1 l2 E). Qed.
+Print Assumptions C11_no_transient_loss.
+
+(* the boolean predicate used on real outputs holds of the model's own commands *)
+Theorem C11_holds :
+  forall k old new cs, wf_C11 (k, old, new) = true -> model_struct k old new = Some cs ->
+    cmds_ok (k, old, new) cs = true.
+Proof. exact holds_struct. Qed.
+Print Assumptions C11_holds.
+
+(* The code as shipped (whole-list shortcut taken although other lines of the list stay)
+   violates the property: witness = DESIGN §7 F3, replayed on the real code by the check. *)
+Definition k_trunk := RK HwMultiAll "port trunk allow-pass vlan" "undo port trunk allow-pass vlan" false.
+Definition f3_old : list line := [(false, [(10, 20); (30, 30)]); (false, [(40, 40); (50, 50)])]%N.
+Definition f3_new : list line := [(false, [(10, 20); (30, 30)])]%N.
+
+Theorem C11_undo_all_refuted :
+  exists x cs, wf_C11 x = true /\
+    model_struct_shipped (in_rule x) (in_old x) (in_new x) = Some cs /\ cmds_ok x cs = false.
+Proof. exists (k_trunk, f3_old, f3_new), [RemoveAll]. vm_compute. repeat split. Qed.
+Print Assumptions C11_undo_all_refuted.
+
+Theorem C11_undo_all_refuted_text :
+  exists x, wf_C11 x = true /\
+    model_rows_shipped (in_rule x) (map (print_line (in_rule x)) (in_old x)) (map (print_line (in_rule x)) (in_new x))
+      = Some ["undo port trunk allow-pass vlan all"] /\
+    P_C11 x (Some ["undo port trunk allow-pass vlan all"]) = false.
+Proof. exists (k_trunk, f3_old, f3_new). vm_compute. repeat split. Qed.
+Print Assumptions C11_undo_all_refuted_text.
+
+(* non-vacuity: the guard admits multi-line lists with unchanged, removed and edited lines,
+   and the repaired model emits the expected rows *)
+Example C11_example_wf : wf_C11 (k_trunk, f3_old, f3_new) = true.
+Proof. vm_compute. reflexivity. Qed.
+
+Example C11_example_repaired :
+  model_rows k_trunk (map (print_line k_trunk) f3_old) (map (print_line k_trunk) f3_new)
+  = Some ["undo port trunk allow-pass vlan 40 50"].
+Proof. vm_compute. reflexivity. Qed.
+
+Definition k_sw := RK CiscoSwtrunk "switchport trunk allowed vlan" "no switchport trunk allowed vlan" false.
+Example C11_example_cisco :
+  let old := [(false, [(1, 10); (20, 20)]); (true, [(30, 30); (40, 41)])]%N in
+  let new := [(false, [(1, 5); (20, 21)]); (true, [(30, 30); (40, 41)])]%N in
+  wf_C11 (k_sw, old, new) = true /\
+  model_struct k_sw old new = Some [Remove [(6, 10)]; Add [(21, 21)]]%N /\
+  model_rows k_sw (map (print_line k_sw) old) (map (print_line k_sw) new)
+  = Some ["no switchport trunk allowed vlan remove 6-10"; "switchport trunk allowed vlan add 21"].
+Proof. vm_compute. repeat split. Qed.
+
+Example C11_example_chunks :
+  map (@List.length range) (chunked 10 (collapse true (set_of_ranges (map (fun i => (N.of_nat (2 * i), N.of_nat (2 * i))) (seq 1 25)))))
+  = [10; 10; 5]%nat.
+Proof. vm_compute. reflexivity. Qed.
